@@ -1676,6 +1676,19 @@ class IRGenerator:
                         new_route_reprs.append(route_name)
             route_whitelist[namespace_name] = new_route_reprs
 
+        # Routes mentioned in the docs of whitelisted routes and namespaces
+        doc_routes_by_ns = defaultdict(set)
+
+        def collect_doc_refs(doc, namespace_context):
+            doc_types, routes_by_ns = parse_data_types_and_routes_from_doc_ref(
+                self.api, doc, namespace_context)
+            route_data_types.extend(doc_types)
+            for ns_name, doc_routes in routes_by_ns.items():
+                doc_routes_by_ns[ns_name] |= doc_routes
+                for doc_route in doc_routes:
+                    route_data_types.extend(
+                        self.api.namespaces[ns_name].get_route_io_data_types_for_route(doc_route))
+
         # Parse the route whitelist and populate any starting data types
         route_data_types = []
         for namespace_name, route_reprs in route_whitelist.items():
@@ -1686,8 +1699,7 @@ class IRGenerator:
 
             # Parse namespace doc refs and add them to the starting data types
             if namespace.doc is not None:
-                route_data_types.extend(
-                    parse_data_types_from_doc_ref(self.api, namespace.doc, namespace_name))
+                collect_doc_refs(namespace.doc, namespace_name)
 
             # Parse user-specified routes and add them to the starting data types
             # Note that this may add duplicates, but that's okay, as the recursion
@@ -1703,8 +1715,7 @@ class IRGenerator:
                 route = namespace.routes_by_name[route_name].at_version[version]
                 route_data_types.extend(namespace.get_route_io_data_types_for_route(route))
                 if route.doc is not None:
-                    route_data_types.extend(
-                        parse_data_types_from_doc_ref(self.api, route.doc, namespace_name))
+                    collect_doc_refs(route.doc, namespace_name)
 
         # Parse the datatype whitelist and populate any starting data types
         for namespace_name, datatype_names in self._routes['datatype_whitelist'].items():
@@ -1714,8 +1725,7 @@ class IRGenerator:
             # Parse namespace doc refs and add them to the starting data types
             namespace = self.api.namespaces[namespace_name]
             if namespace.doc is not None:
-                route_data_types.extend(
-                    parse_data_types_from_doc_ref(self.api, namespace.doc, namespace_name))
+                collect_doc_refs(namespace.doc, namespace_name)
 
             for datatype_name in datatype_names:
                 if datatype_name not in self.api.namespaces[namespace_name].data_type_by_name:
@@ -1725,6 +1735,8 @@ class IRGenerator:
 
         # Recurse on dependencies
         output_types_by_ns, output_routes_by_ns = self._find_dependencies(route_data_types)
+        for ns_name, doc_routes in doc_routes_by_ns.items():
+            output_routes_by_ns[ns_name] |= doc_routes
 
         # Update the IR representation. This involves editing the data types and
         # routes for each namespace.
